@@ -48,6 +48,11 @@ def anchor_programs():
     out.append((never, [G.cfg(stop=True), G.cfg()], [[0, 0]] + [[k, 0] for k in range(1, 19)]))
     out.append(({"features": [ft([sc(["pass"]), sc(["kbd"]), ol([([], [["pass"], ["fail"]])])]), ft([ol([([], [["pass", "pass"], ["pass", "pass"]])])])],
                  "family": "anchor"}, [G.cfg(), G.cfg(stop=True)], [[0, 0], [1, 0], [2, 0]]))
+    # several failed and several errored scenarios (and outline rows) that share keyword and title
+    same = {"features": [ft([sc(["fail"]), sc(["pass", "fail"]), sc(["error"]), sc(["undefined"]), sc(["pass"]),
+                             ol([([], [["fail"], ["fail"], ["error"]])]), ol([([], [["fail"], ["error"]])])]),
+                         ft([sc(["fail"]), ru([sc(["fail"]), sc(["error"]), sc(["pending"])])])], "family": "anchor", "dupnames": True}
+    out.append((same, [G.cfg(), G.cfg(cont=True), G.cfg(show_skipped=False)], [[0, 0], [3, 0], [4, 0], [9, 0], [15, 0]]))
     return out
 
 
@@ -59,7 +64,7 @@ def make_jobs(chk):
         for ci, c in enumerate(cfgs):
             for fi, f in enumerate(faults):
                 jobs.append((tid + 1, ci + 1, fi + 1, p, c, f))
-    want = 1400 if chk.quick() else 20000
+    want = 900 if chk.quick() else 20000
     total = len(jobs)
     if len(jobs) > want:
         # thin the plan (seeded); 30 % of the runs without a hook fault so that complete green / red runs stay frequent
@@ -72,10 +77,31 @@ def make_jobs(chk):
         for ci, c in enumerate(cfgs):
             for fi, f in enumerate(faults):
                 jobs.append((900000 + k, ci + 1, fi + 1, p, c, f))
+    # a KeyboardInterrupt raised by a hook (run_hook catches Exception only) leaves feature.run() and is handled by
+    # run_model itself: the interrupted feature and all later ones still have to reach the reporters.  Every hook
+    # position of the multi-feature anchor programs, and every 6th sampled run with a hook fault.
+    kbd = set()
+    for k, (p, cfgs, faults) in enumerate(anchor_programs()):
+        if len(p["features"]) < 2:
+            continue
+        nh = G.count_hooks_upper(G.flatten(p))
+        for pos in range(1, nh + 1):
+            kbd.add(len(jobs))
+            jobs.append((910000 + k, 1, pos, p, G.cfg(), [pos, 0]))
     out = []
+    nf = 0
     for n, (tid, ci, fi, p, c, f) in enumerate(jobs):
+        kind = "assert" if (tid + ci + fi) % 3 == 0 else "exc"
+        if any(f):
+            nf += 1
+            if nf % 6 == 0 or n in kbd:
+                kind = "kbd"
+        if n % 2:
+            # every other run: all scenarios share one keyword + title (model elements compare equal by keyword and name);
+            # the listed scenarios are mapped back by file:line, never by name
+            p = dict(p, dupnames=True)
         job = {"key": [tid, ci, fi], "prog": p, "flat": G.flatten(p), "cfg": c, "fault": f,
-               "fault_kind": "assert" if (tid + ci + fi) % 3 == 0 else "exc", "reports": True, "plugins": ["c14"]}
+               "fault_kind": kind, "reports": True, "plugins": ["c14"]}
         if n % 5:
             # 4 of 5 runs: the summary reporter alone, as in a plain `behave` run.  The JUnit reporter (called before the
             # summary reporter) and the rerun formatter walk every scenario and thereby build the rows of outlines that
@@ -270,7 +296,8 @@ def run(chk):
     cover = {k: {} for k in ("feature", "rule", "scenario", "step")}
     classes = {"stop": 0, "dry": 0, "cont": 0, "hook_fault": 0, "deselecting_expr": 0, "escaped": 0, "untested_remainder": 0,
                "with_rule": 0, "with_outline": 0, "all_skipped": 0, "summary_reporter_alone": 0,
-               "live_judged_with_never_run_outline": 0}
+               "live_judged_with_never_run_outline": 0, "same_title_scenarios": 0, "kbd_in_hook": 0, "kbd_in_hook_live_judged": 0,
+               "two_failed_or_two_errored_same_title_live_judged": 0}
     for job, row in zip(jobs, out):
         if "driver_error" in row:
             raise RuntimeError("driver failed on %s:\n%s" % (row["key"], row["driver_error"]))
@@ -298,6 +325,14 @@ def run(chk):
         classes["with_rule"] += "rule" in kinds
         classes["with_outline"] += "outline" in kinds
         classes["summary_reporter_alone"] += "formats" in job
+        classes["same_title_scenarios"] += bool(job["prog"].get("dupnames"))
+        classes["kbd_in_hook"] += job["fault_kind"] == "kbd" and any(job["fault"])
+        classes["kbd_in_hook_live_judged"] += job["fault_kind"] == "kbd" and any(job["fault"]) and jr["end"]["live_ok"]
+        plain_sc = [jr["end"]["status"][e["id"] - 1] for e in job["flat"]["elems"]
+                    if e["kind"] == "scenario" and job["flat"]["elems"][e["parent"] - 1]["kind"] != "outline"]
+        classes["two_failed_or_two_errored_same_title_live_judged"] += bool(
+            job["prog"].get("dupnames") and jr["end"]["live_ok"] and
+            (plain_sc.count("failed") > 1 or sum(1 for x in plain_sc if x in ("error", "hook_error")) > 1))
         elems = job["flat"]["elems"]
         classes["live_judged_with_never_run_outline"] += bool(
             jr["end"]["live_ok"] and not c["dry"] and "formats" in job and
